@@ -36,11 +36,51 @@ def FAI(u, ar):
         u.take_fn(ar, "ComputedAuthorizationItem::from_authorization_item", e9=e9, extra_attrs="#[verifier::loop_isolation(false)]",
                   desugar_for={0: "vx_ra", 1: "vx_pn", 2: "vx_id"},
                   pre_body="broadcast use vstd::std_specs::hash::group_hash_axioms;\nbroadcast use axiom_str_ext, axiom_deref_key_updated, axiom_string_ext;\nproof { lits_modes(); }\nlet ghost d0 = authorization_item;",
+                  loops={0: FAI_INV_OUTER, 1: FAI_INV_MID, 2: FAI_INV_IN},
+                  loop_ends={1: """proof {
+    if last_priv(l.privileges, *privilege_name) < 0 { assert(*privilege_name == rp[j]); lemma_tbl_priv_skipped(privilege_assignments@, l, n, j); }
+    j = j + 1;
+}"""},
+                  hints=[
+                      ("for role_assignment in role_assignments", None, "before", FAI_PRE_OUTER),
+                      ("for privilege_name in &role.privileges", None, "before", FAI_PRE_MID),
+                      ("let assignments =", 0, "before", FAI_PRE_ASSIGN),
+                      ("for identity_name in &role_assignment.identities", None, "before", FAI_POST_ASSIGN),
+                      ("if !identity_dict.contains_key(identity_name)", None, "before", "proof { assert(*identity_name == ri[t]); t = t + 1; }"),
+                      ("for identity_name in &role_assignment.identities", None, "after", """
+proof {
+    let pa2 = privilege_assignments@;
+    let pn0 = *privilege_name;
+    assert(pa2.contains_key(pn0));
+    assert forall|idn: String| #[trigger] pa2[pn0]@.contains(idn) <==> ((pa_b.contains_key(pn0) && pa_b[pn0]@.contains(idn))
+        || (last_ident(l.identities, idn) >= 0 && l.assignments[n].identities@.contains(idn))) by {
+        if l.assignments[n].identities@.contains(idn) { let y = l.assignments[n].identities@.index_of(idn); assert(ri[y] == idn); }
+    }
+    lemma_tbl_priv_done(pa_b, pa2, l, n, j, pn0);
+}"""),
+                      ("for privilege_name in &role.privileges", None, "after", "proof { lemma_tbl_assignment_done(privilege_assignments@, l, n); n = n + 1; }"),
+                      ("continue;", 1, "before", "proof { lemma_last_role_range(l.roles, role_assignment.role); assert(role_assignment == ras[n]); lemma_tbl_assignment_done(privilege_assignments@, l, n); n = n + 1; }"),
+                      ("ComputedAuthorizationItem {", None, "before", """
+proof {
+        assert forall|k: String| #[trigger] privilege_dict@.contains_key(k) implies privilege_dict@[k].name == k by {
+        lemma_last_priv_range(doc_lists(d0).privileges, k);
+    }
+}"""),
+                  ],
                   contract="""
         requires obeys_key_model::<String>(),
         ensures repr(authorization_item, r),  // @C02.from_authorization_item.tables_represent_the_document
-                r.wf(),
+                r.wf(),                       // @C02.from_authorization_item.entries_filed_under_their_own_name
 """)
+
+
+FAI_PRE_OUTER = '\nlet ghost l = doc_lists(d0);\nlet ghost ras = role_assignments@;\nlet ghost mut n: int = 0;\nproof {\n    assert(l.assignments == ras); assert(l.roles == roles@); assert(l.privileges == privileges@); assert(l.identities == identities@);\n}\n'
+FAI_INV_OUTER = '\n    invariant\n        0 <= n <= ras.len(),\n        IteratorSpec::obeys_prophetic_iter_laws(&vx_ra), IteratorSpec::decrease(&vx_ra) is Some,\n        IteratorSpec::remaining(&vx_ra) == ras.subrange(n, ras.len() as int),\n        table_inv(privilege_assignments@, l, n, 0, 0),\n    decreases IteratorSpec::decrease(&vx_ra)->0,\n'
+FAI_PRE_MID = '\nlet ghost rp = role.privileges@;\nlet ghost mut j: int = 0;\nproof {\n    lemma_last_role_range(l.roles, role_assignment.role);\n    assert(role_assignment == ras[n]);\n    assert(*role == l.roles[last_role(l.roles, role_assignment.role)]);\n}\n'
+FAI_INV_MID = '\n    invariant\n        0 <= j <= rp.len(), 0 <= n < ras.len(),\n        IteratorSpec::obeys_prophetic_iter_laws(&vx_pn), IteratorSpec::decrease(&vx_pn) is Some,\n        IteratorSpec::remaining(&vx_pn).len() == rp.len() - j,\n        forall|i: int| 0 <= i < IteratorSpec::remaining(&vx_pn).len() ==> *(#[trigger] IteratorSpec::remaining(&vx_pn)[i]) == rp[j + i],\n        table_inv(privilege_assignments@, l, n, j, 0),\n    decreases IteratorSpec::decrease(&vx_pn)->0,\n'
+FAI_PRE_ASSIGN = '\nlet ghost pa_b = privilege_assignments@;\nproof { assert(*privilege_name == rp[j]); }\n'
+FAI_POST_ASSIGN = '\nlet ghost base = assignments@;\nlet ghost ri = role_assignment.identities@;\nlet ghost mut t: int = 0;\nproof {\n    assert(base == (if pa_b.contains_key(*privilege_name) { pa_b[*privilege_name]@ } else { Set::<String>::empty() }));\n}\n'
+FAI_INV_IN = '\n    invariant\n        0 <= t <= ri.len(),\n        IteratorSpec::obeys_prophetic_iter_laws(&vx_id), IteratorSpec::decrease(&vx_id) is Some,\n        IteratorSpec::remaining(&vx_id).len() == ri.len() - t,\n        forall|i: int| 0 <= i < IteratorSpec::remaining(&vx_id).len() ==> *(#[trigger] IteratorSpec::remaining(&vx_id)[i]) == ri[t + i],\n        forall|idn: String| #[trigger] assignments@.contains(idn) <==> (base.contains(idn) || (last_ident(l.identities, idn) >= 0 && exists|y: int| 0 <= y < t && #[trigger] ri[y] == idn)),\n    decreases IteratorSpec::decrease(&vx_id)->0,\n'
 
 
 def build(u):
